@@ -17,8 +17,8 @@ class C14(pure.Spec):
             "longer}; compared: response class, the four upgrade headers incl. the RFC 6455 accept hash (recomputed in the "
             "harness), body, and byte equality with the response of the same request on an unknown path. Cells = (config, "
             "method, path, outcome); distinct by case hash.")
-    assumptions = ["every case runs twice: without a backend (fallback = the configured 404) and with a backend answering every path alike "
-                   "(fallback = the proxied answer; the Date header is ignored); hyper's HeaderMap::get = first value"]
+    assumptions = ["every case runs three times: without a backend (fallback = the default 404), with a custom not-found response configured (every fallback answer must be exactly it), and with a backend that reports what it received "
+                   "(x-seen-path = request target, x-seen = hash of method and sorted header lines, body = that dump: the fallback answer must be the proxied answer of the unaltered request; the Date header is ignored); hyper's HeaderMap::get = first value"]
 
     def build(self, tier):
         C.cargo_build(os.path.join(C.VERIF, "harness", "app"), "release")
